@@ -838,9 +838,28 @@ func (r *seqRun) pickFid(g *prng.R, wantBound bool, p int) uint32 {
 	return fidPool[g.Intn(len(fidPool))]
 }
 
+// pickOpen prefers a fid that the reference table holds open (or bound but not open).
+func (r *seqRun) pickOpen(g *prng.R, open bool, p int) uint32 {
+	if g.Chance(p, 100) {
+		var c []uint32
+		for _, f := range fidPool {
+			if b, ok := r.ref[f]; ok && b.open == open {
+				c = append(c, f)
+			}
+		}
+		if len(c) > 0 {
+			return c[g.Intn(len(c))]
+		}
+	}
+	return r.pickFid(g, true, 85)
+}
+
 func (r *seqRun) genOp(g *prng.R) *opT {
 	o := &opT{}
 	x := g.Intn(100)
+	if len(r.ref) == 0 && !r.stopped && g.Chance(75, 100) {
+		x = 0 // nothing is bound: attach first
+	}
 	switch {
 	case x < 12:
 		o.kind = "attach"
@@ -881,7 +900,7 @@ func (r *seqRun) genOp(g *prng.R) *opT {
 		}
 	case x < 48:
 		o.kind = "open"
-		o.fid = r.pickFid(g, true, 88)
+		o.fid = r.pickOpen(g, false, 75)
 		o.mode = modes[g.Intn(len(modes))]
 	case x < 58:
 		o.kind = "create"
@@ -893,10 +912,10 @@ func (r *seqRun) genOp(g *prng.R) *opT {
 		}
 	case x < 66:
 		o.kind = "read"
-		o.fid = r.pickFid(g, true, 88)
+		o.fid = r.pickOpen(g, true, 75)
 	case x < 74:
 		o.kind = "write"
-		o.fid = r.pickFid(g, true, 88)
+		o.fid = r.pickOpen(g, true, 75)
 	case x < 79:
 		o.kind = "stat"
 		o.fid = r.pickFid(g, true, 85)
